@@ -23,6 +23,9 @@ SELF = P("param", "self")
 INF = Seq([Const(None), Const(None)])
 
 
+C06_CHECKS = ("CheckSizes", "CheckExponents", "CheckROCA", "CheckROCAVariant", "CheckOpensslDenylist", "CheckKeypairDenylist", "CheckValidECKey", "CheckWeakCurve")
+
+
 def run(ctx):
   rule_pred(ctx)
   rule_tables(ctx)
@@ -31,6 +34,10 @@ def run(ctx):
   rule_keypair(ctx)
   rule_enum(ctx)
   rule_keygen(ctx)
+  # "flags exactly the artifacts that meet it": the entry recorded for an artifact carries the verdict computed for that artifact (shared with C16)
+  from . import c16
+  c16.rule_isolated(ctx, T.bodies(ctx.repo), "R-C06-OWN", lambda w: w.split(":")[1].split(".")[0] in C06_CHECKS)
+  ctx.expect("R-C06-OWN", 8, "the eight closed-form checks")
   ctx.expect("R-C06-KEYGEN", 5, "generator emulation clauses")
   ctx.expect("R-C06-PRED", 11, "eleven predicates")
   ctx.expect("R-C06-TABLES", 3, "two prime tables + F4")
